@@ -15,7 +15,7 @@ import "sync/atomic"
 func zzC09FS() *zzFS {
 	fsys := newZZFS(map[string]string{
 		"page.vuego":         "---\ntitle: T\nlayout: wrap\n---\n<template #side><nav>{{ title }}</nav></template><h1 v-once>{{ title }}</h1><ul><li v-for=\"(i, it) in items\" :class=\"{odd: i % 2 == 1}\">{{ it | upper }}</li></ul><template include=\"c.vuego\" :n=\"n\"></template>",
-		"plain.vuego":        "<p :title=\"a.b[0]\">{{ a.b[0] }} {{ n + 1 }}</p><template include=\"c.vuego\" :n=\"n\"><b>{{ n }}</b></template>",
+		"plain.vuego":        "<template :cnt=\"n + 1\" label=\"hit\"></template><p :title=\"a.b[0]\">{{ a.b[0] }} {{ n + 1 }}</p><template include=\"c.vuego\" :n=\"n\"><b>{{ n }}</b></template>",
 		"c.vuego":            "---\nfm: F\n---\n<section><em v-once>{{ n }}{{ fm }}</em><slot>fb</slot></section>",
 		"layouts/wrap.vuego": "<main><aside><slot name=\"side\">no side</slot><footer>F</footer></aside><div v-html=\"content\"></div><i>{{ title }}</i></main>",
 	})
